@@ -26,8 +26,18 @@ def _complement_key(c):
     if c.op == 'ge': return ('gt', (-c.a).key())
     return None
 
+def _has_eq(c):
+    """does the literal constrain to a lower-dimensional set (equality, or negated strict inequality)?"""
+    if isinstance(c, bool): return False
+    if c.op == 'eq': return True
+    if c.op == 'ge': return True
+    if c.op == 'not': return c.a.op in ('gt',) or (c.a.op == 'not' and _has_eq(c.a.a))
+    if c.op in ('and', 'or'): return _has_eq(c.a) or _has_eq(c.b)
+    return False
+
+
 class PathOracle:
-    def __init__(self, prefix, z3_timeout=2000, use_z3=True):
+    def __init__(self, prefix, z3_timeout=2000, use_z3=True, seed=0, pool_size=40):
         self.prefix = dict(prefix)       # key -> bool (forced decisions)
         self.order = list(prefix)        # keys in order
         self.cache = {}
@@ -37,6 +47,57 @@ class PathOracle:
         self.z3_timeout = z3_timeout
         self.use_z3 = use_z3
         self.unknown_feas = 0
+        self.env = None
+        self.pool = [dict(rng=random.Random(seed * 1000 + i), sample={}, alive=True) for i in range(pool_size)]
+        self.z3_calls = 0
+
+    # ---- sample pool: cheap feasibility evidence (a sample satisfying path /\ c is a proof of feasibility)
+    def _pool_eval(self, c):
+        """(some alive sample makes c true, some makes it false)"""
+        env = self.env
+        if env is None or not env.decls: return False, False
+        ctx = A.CTX
+        t = f = False
+        for it in self.pool:
+            if not it['alive']: continue
+            try:
+                for d in env.decls:
+                    if d.name not in it['sample']:
+                        it['sample'][d.name] = sample_decl(d, it['rng'].choice(d.regimes), it['rng'])
+                sv = symvals_from_sample(env.decls, it['sample'])
+                if ctx.eps is not None: sv[list(ctx.eps.num.vars())[0]] = mpf(2.0 ** -52)
+                val = AT.valuation(sv)
+                if not all(x.evalf(val) for x in self.path) or not all(x.evalf(val, 1e-40) for x in ctx.facts):
+                    it['alive'] = False; continue
+                if c.evalf(val): t = True
+                else: f = True
+            except (ZeroDivisionError, KeyError, ValueError, TypeError):
+                continue
+            if t and f: break
+        return t, f
+
+    def witness(self):
+        env = self.env
+        if env is None: return None
+        ctx = A.CTX
+        for it in self.pool:
+            if not it['alive']: continue
+            try:
+                for d in env.decls:
+                    if d.name not in it['sample']:
+                        it['sample'][d.name] = sample_decl(d, it['rng'].choice(d.regimes), it['rng'])
+                sv = symvals_from_sample(env.decls, it['sample'])
+                if ctx.eps is not None: sv[list(ctx.eps.num.vars())[0]] = mpf(2.0 ** -52)
+                val = AT.valuation(sv)
+                if all(x.evalf(val) for x in self.path) and all(x.evalf(val, 1e-40) for x in ctx.facts):
+                    return dict(sample={d.name: it['sample'][d.name] for d in env.decls}, regimes=['pool'])
+            except (ZeroDivisionError, KeyError, ValueError, TypeError):
+                continue
+        return None
+
+    def _sat(self, conds):
+        self.z3_calls += 1
+        return smt.check_sat(conds, self.z3_timeout)
 
     def decide(self, c):
         k = c.key()
@@ -52,19 +113,23 @@ class PathOracle:
                     self.cache[k] = False; return False
         if k in self.prefix:
             v = self.prefix[k]
-            if self.use_z3:
-                r = smt.check_sat(self.path + [c if v else ~c], self.z3_timeout)
+            pt, pf = self._pool_eval(c)
+            if not (pt if v else pf) and self.use_z3:
+                r = self._sat(self.path + [c if v else ~c])
                 if r == 'unsat': raise Infeasible()
             self._take(c, k, v, forced=True)
             return v
         # fresh decision: which sides are feasible?
-        t_ok = f_ok = True
+        t_ok, f_ok = self._pool_eval(c)
         if self.use_z3:
-            rt = smt.check_sat(self.path + [c], self.z3_timeout)
-            t_ok = rt != 'unsat'
-            rf = smt.check_sat(self.path + [~c], self.z3_timeout)
-            f_ok = rf != 'unsat'
-            if 'unknown' in (rt, rf): self.unknown_feas += 1
+            if not t_ok:
+                rt = self._sat(self.path + [c]); t_ok = rt != 'unsat'
+                if rt == 'unknown': self.unknown_feas += 1
+            if not f_ok:
+                rf = self._sat(self.path + [~c]); f_ok = rf != 'unsat'
+                if rf == 'unknown': self.unknown_feas += 1
+        else:
+            t_ok = f_ok = True
         if not t_ok and not f_ok: raise Infeasible()
         if t_ok and not f_ok:
             self.cache[k] = True; self.implied += 1; return True
@@ -92,6 +157,7 @@ class InputDecl:
     def __init__(self, name, kind, n, regimes):
         self.name, self.kind, self.n, self.regimes = name, kind, n, regimes
         self.vids = []
+        self.integer = False
 
 
 class Env:
@@ -149,11 +215,12 @@ class Env:
             return st.tensor(fs)
         return self._mk(d, b)
 
-    def scalar(self, name, regimes=('generic', 'zero', 'tiny', 'small', 'large'), positive=False, nonneg=False):
+    def scalar(self, name, regimes=('generic', 'zero', 'tiny', 'small', 'large'), positive=False, nonneg=False, integer=False):
         d = self._declare(name, 'pos' if positive else ('nonneg' if nonneg else 'vec'), 1, regimes)
+        d.integer = integer
         def b(d):
             c = A.CTX
-            f = c.sym(name)
+            f = c.sym(name, integer=integer)
             d.vids = [list(f.num.vars())[0]]
             if positive: c.add_fact(f > 0)
             if nonneg: c.add_fact(f >= 0)
@@ -231,6 +298,7 @@ class Env:
                     self._record(name, 'failed', f'shape mismatch {la.shape} vs {ra.shape}'); return False
             bad = []
             vals = []
+            used_z3 = False
             for idx in np.ndindex(la.shape):
                 a, b = la[idx], ra[idx]
                 if isinstance(a, (bool, SymBool, int)) and not isinstance(a, Frac): a = Frac.of(a)
@@ -239,6 +307,11 @@ class Env:
                     ok = isinstance(a, Inf) and isinstance(b, Inf) and a.sign == b.sign
                 else:
                     ok = a.same(b)
+                if not ok and not isinstance(a, Inf) and not isinstance(b, Inf) and A.ORACLE.path:
+                    # not an identity; it may still hold under the equalities of this path (e.g. x == lo)
+                    if any(_has_eq(c) for c in A.ORACLE.path):
+                        if smt.prove(A.ORACLE.path, mkcond('eq', a - b), 5000) == 'proved':
+                            ok = True; used_z3 = True
                 if not ok: bad.append((idx, a, b))
                 vals.append(a)
             self.values[name] = vals
@@ -248,7 +321,7 @@ class Env:
                 self._record(name, 'failed', {'entry': list(idx), 'n_bad': len(bad),
                                               'residual': repr(d)[:600] if d is not None else 'inf'})
                 return False
-            self._record(name, 'proved', {'entries': int(la.size), 'backend': 'nf'})
+            self._record(name, 'proved', {'entries': int(la.size), 'backend': 'nf+z3' if used_z3 else 'nf'})
             return True
         else:
             T = self.T
@@ -432,6 +505,8 @@ def sample_decl(d, regime, rng):
             v = [abs(x) + (1e-3 if regime != 'tiny' else 1e-20) if regime != 'generic' else math.exp(rng.uniform(-2, 2)) for x in v]
         if d.kind == 'nonneg':
             v = [abs(x) for x in v]
+        if getattr(d, 'integer', False):
+            v = [float(round(x * 3)) + (1.0 if d.kind == 'pos' and round(x * 3) <= 0 else 0.0) for x in v]
         return v
     if d.kind == 'unit4':
         if regime == 'identity': return [0.0, 0.0, 0.0, 1.0]
@@ -479,11 +554,12 @@ def run_symbolic(fn, loader, max_paths=64, z3_timeout=2000, seed=0, witness_trie
         if len(paths) >= max_paths:
             raise PathLimit(f"more than {max_paths} paths")
         ctx = A.set_ctx(A.Ctx())
-        orc = PathOracle(prefix, z3_timeout)
+        orc = PathOracle(prefix, z3_timeout, seed=seed)
         A.set_oracle(orc)
         st.LAST_CTX.clear()
         loopcut.DISPATCH.contracts.clear(); loopcut.DISPATCH.log.clear()
         env = Env('sym', loader=loader)
+        orc.env = env
         outcome = 'ok'; err = None
         try:
             fn(env)
@@ -510,7 +586,7 @@ def run_symbolic(fn, loader, max_paths=64, z3_timeout=2000, seed=0, witness_trie
         # witness
         wit = None
         if outcome != 'gap':
-            wit = find_witness(env, orc, ctx, seed + len(paths), witness_tries, eps_value)
+            wit = orc.witness() or find_witness(env, orc, ctx, seed + len(paths), witness_tries, eps_value)
         paths.append(dict(prefix=[(str(k)[:80], v) for k, v in taken], cond=[repr(c)[:200] for c in orc.path],
                           clauses=env.clauses, outcome=outcome, error=err, witness=wit,
                           values={k: v for k, v in env.values.items()} if wit else {},
@@ -523,14 +599,11 @@ def find_witness(env, orc, ctx, seed, tries, eps_value):
     rng = random.Random(seed)
     decls = env.decls
     if not decls: return {}
-    combos = list(itertools.product(*[d.regimes for d in decls]))
-    rng.shuffle(combos)
-    # always try the all-first-regime combo first
-    combos.insert(0, tuple(d.regimes[0] for d in decls))
     n = 0
-    for combo in itertools.cycle(combos):
+    while True:
         n += 1
         if n > tries: return _z3_witness(env, orc, ctx, eps_value)
+        combo = tuple(d.regimes[0] for d in decls) if n == 1 else tuple(rng.choice(d.regimes) for d in decls)
         sample = {d.name: sample_decl(d, r, rng) for d, r in zip(decls, combo)}
         try:
             sv = symvals_from_sample(decls, sample)
@@ -570,7 +643,11 @@ def _z3_witness(env, orc, ctx, eps_value):
 
 
 def run_numeric(fn, sample=None, tol=1e-8, dtype='float64', rng=None, regime=None):
-    env = Env('num', sample=sample, tol=tol, dtype=dtype, rng=rng, regime=regime)
+    sample = dict(sample or {})
+    seed_ = sample.pop('__seed__', None)
+    if seed_ is None:
+        seed_ = (rng or random).randrange(1 << 30)
+    env = Env('num', sample=sample, tol=tol, dtype=dtype, rng=random.Random(seed_), regime=regime)
     outcome = 'ok'; err = None
     try:
         fn(env)
@@ -583,4 +660,4 @@ def run_numeric(fn, sample=None, tol=1e-8, dtype='float64', rng=None, regime=Non
     finally:
         for (m_, n_, old_) in reversed(env._undo): setattr(m_, n_, old_)
         env._undo = []
-    return dict(clauses=env.clauses, outcome=outcome, error=err, values=env.values, decls=env.decls, sample=env.sample)
+    return dict(clauses=env.clauses, outcome=outcome, error=err, values=env.values, decls=env.decls, sample=dict(env.sample, __seed__=seed_))
